@@ -28,8 +28,8 @@ PID = "C48"
 LEVEL = "proof"
 LEAN = ["SaVerif.Props.C48"]
 META = {
-    "text": "Lean theorems for ALL histories without a rollback (simulation proved by induction over the operation list): the session with garbage collection after every step and the session in which nothing is ever collected produce the same outputs (values read, flush results) and the same database (gc_unobservable_partial, gc_same_db_partial); the full statement is false - SessionTransaction._new is weak, so an instance re-loaded after the inserted one was collected survives a rollback as a phantom (gc_unobservable_counterexample, replayed on the real code as a known finding); collection never removes an object with pending work (collect_keeps_strong) and flush after collection writes what flush without it writes (collect_flush_db); an unmodified persistent object without application reference is released (collect_releases). Tied to orm/state.py (_strong_obj), identity.py (WeakInstanceDict), session.py by a differential run on a real Session with real reference drops and gc.collect(); the property is re-checked verbatim by a twin run in which nothing can be collected and by a dict reference.",
-    "note": "Trusted: Lean kernel; correspondence (sampling + exhaustive short sequences); CPython reference counting + gc.collect() as the garbage collector; SQLite. Objects are flat (no relationship reachability between mapped objects), mutable-extension and pending-mutation references are not modelled. len(identity_map) is compared with the model only (release is a 'may' in the property, not checked by the oracle). gc_unobservable is a _partial theorem (hypothesis: no rollback() and no failing flush in the history) with a proved counterexample.",
+    "text": "Lean theorems for ALL histories without a rollback (simulation proved by induction over the operation list): the session with garbage collection after every step and the session in which nothing is ever collected produce the same outputs (values read, flush results) and the same database (gc_unobservable_partial, gc_same_db_partial); the full statement is false - SessionTransaction._new is weak, so an instance re-loaded after the inserted one was collected survives a rollback as a phantom (gc_unobservable_counterexample, replayed on the real code as a known finding); a state that sits in `_modified` stays strongly referenced even when its history is taken away by a partial expire of exactly the modified attribute or never materialised because the change was refused outside a transaction with autobegin=False (partial_expire_keeps_strong, refused_change_keeps_strong); collection never removes an object with pending work (collect_keeps_strong) and flush after collection writes what flush without it writes (collect_flush_db); an unmodified persistent object without application reference is released (collect_releases). Tied to orm/state.py (_strong_obj), identity.py (WeakInstanceDict), session.py by a differential run on a real Session with real reference drops and gc.collect(); the property is re-checked verbatim by a twin run in which nothing can be collected and by a dict reference.",
+    "note": "Trusted: Lean kernel; correspondence (sampling + exhaustive short sequences); CPython reference counting + gc.collect() as the garbage collector; SQLite. Sessions with autobegin=False (explicit begin, changes refused outside a transaction) and partial expire are part of the histories; a second known finding: a refused change of an EXPIRED attribute writes NULL at the next flush (the history stops there). Objects are flat (no relationship reachability between mapped objects), mutable-extension and pending-mutation references are not modelled. len(identity_map) is compared with the model only (release is a 'may' in the property, not checked by the oracle). gc_unobservable is a _partial theorem (hypothesis: no rollback() and no failing flush in the history) with a proved counterexample.",
     "technique": "Lean 4 simulation proof (GC vs no-GC semantics) + differential correspondence with real reference drops + metamorphic twin run",
     "design_ref": "DESIGN.md §3 C30–C48 (C48)",
 }
@@ -87,6 +87,8 @@ def world():
 
 
 KEY_PHANTOM = "instance-reloaded-after-gc-of-inserted-one-survives-rollback-as-phantom"
+KEY_NULLW = "refused-change-of-expired-attribute-autobegin-off-writes-null-at-next-flush"
+KNOWN_KEYS = (KEY_PHANTOM, KEY_NULLW)
 
 
 def run_history(case, keepalive=False):
@@ -103,7 +105,7 @@ def run_history(case, keepalive=False):
 def _run_history(case, keepalive):
     """keepalive=True: the twin in which dropped objects stay alive (no collection)."""
     from sqlalchemy import inspect
-    from sqlalchemy.exc import IntegrityError
+    from sqlalchemy.exc import IntegrityError, InvalidRequestError
     from sqlalchemy.orm import Session
     from sqlalchemy.orm.exc import ObjectDeletedError, StaleDataError
 
@@ -111,7 +113,8 @@ def _run_history(case, keepalive):
     w.reset()
     T = w.T
     n, eoc, ops = case["n"], case["eoc"], case["ops"]
-    sess = Session(w.engine, autoflush=False, expire_on_commit=bool(eoc))
+    ab = case.get("ab", 1)
+    sess = Session(w.engine, autoflush=False, expire_on_commit=bool(eoc), autobegin=bool(ab))
     handles = {}  # the application's references
     graveyard = []  # twin only
     pending_pks, deleted_pks = set(), set()
@@ -153,8 +156,18 @@ def _run_history(case, keepalive):
             for op in ops:
                 kind = op[0]
                 o = None
+                stop = False
+                live = bool(ab) or sess.in_transaction()
                 try:
-                    if kind == "get":
+                    if not live and kind not in ("set", "drop", "len", "begin"):
+                        outs.append("-")  # autobegin=False and no transaction: nothing but the objects themselves
+                    elif kind == "begin":
+                        if live:
+                            outs.append("-")
+                        else:
+                            sess.begin()
+                            outs.append("d")
+                    elif kind == "get":
                         k = op[1]
                         if k in pending_pks or k in deleted_pks:
                             outs.append("-")
@@ -169,9 +182,20 @@ def _run_history(case, keepalive):
                     elif kind == "set":
                         k, v = op[1], op[2]
                         if k in handles:
-                            handles[k].val = v
-                            expect[k] = v
-                            outs.append("d")
+                            try:
+                                handles[k].val = v
+                                expect[k] = v
+                                outs.append("d")
+                            except InvalidRequestError:
+                                # autobegin=False, no transaction: the change is refused (and not made)
+                                if live:
+                                    raise
+                                outs.append("x")
+                                if "val" not in handles[k].__dict__:
+                                    # known defect: the refused change of an EXPIRED attribute leaves
+                                    # committed_state[attr] = NO_VALUE behind; the next flush writes NULL
+                                    problems.append((KEY_NULLW, "refused change of expired attribute val of row %d: state is modified with committed_state %r and no value" % (k, dict(inspect(handles[k]).committed_state))))
+                                    stop = True
                         else:
                             outs.append("-")
                     elif kind == "del":
@@ -221,6 +245,19 @@ def _run_history(case, keepalive):
                             outs.append("d")
                         else:
                             outs.append("-")
+                    elif kind in ("expa", "expi"):
+                        k = op[1]
+                        if k in handles and k not in pending_pks:
+                            sess.expire(handles[k], ["val" if kind == "expa" else "id"])
+                            if kind == "expa":  # the pending change of that attribute is discarded
+                                expect_k = table().get(k)
+                                if expect_k is None:
+                                    expect.pop(k, None)
+                                else:
+                                    expect[k] = expect_k
+                            outs.append("d")
+                        else:
+                            outs.append("-")
                     elif kind in ("flush", "commit"):
                         if kind == "flush":
                             sess.flush()
@@ -261,6 +298,8 @@ def _run_history(case, keepalive):
                 e = None
                 if not keepalive:
                     gc.collect()
+                if stop:
+                    break  # what the next flush does to that row is the defect, not this property
                 if kind == "rollback" or outs[-1].startswith("integrity"):
                     # known defect: an instance re-loaded after the one the transaction inserted was
                     # garbage collected is unknown to the transaction and survives its rollback
@@ -281,33 +320,45 @@ def _run_history(case, keepalive):
 
 # ---------------------------------------------------------------------- encoding
 def request(case, gcflag=1):
-    return "weakref run %d %d %d %s" % (case["n"], case["eoc"], gcflag, ",".join(":".join(str(x) for x in o) for o in case["ops"]) or "-")
+    return "weakref run %d %d %d %d %s" % (case["n"], case["eoc"], case.get("ab", 1), gcflag, ",".join(":".join(str(x) for x in o) for o in case["ops"]) or "-")
 
 
 # ---------------------------------------------------------------------- generators
-def gen_random(rng, tier):
+def gen_random(rng, tier, ab=1):
     n = rng.choice([1, 2, 3])
     ops = []
+    if not ab:
+        ops.append(("begin",))
     for k in range(n):
         if rng.random() < 0.7:
             ops.append(("add", k, rng.randint(0, 9)))
     ops.append(("commit",))
+    if not ab and rng.random() < 0.6:
+        # load inside a transaction, leave it, then touch the objects outside
+        ops.append(("begin",))
+        for k in range(n):
+            ops.append(("get", k))
+        ops.append(("commit",))
     m = rng.randint(6, 16 if tier == "quick" else 28)
     for _ in range(m):
         k = rng.randrange(n)
         r = rng.random()
-        if r < 0.18:
+        if r < 0.16:
             ops.append(("get", k))
-        elif r < 0.36:
+        elif r < 0.34:
             ops.append(("set", k, rng.randint(10, 99)))
-        elif r < 0.54:
+        elif r < 0.50:
             ops.append(("drop", k))
-        elif r < 0.60:
+        elif r < 0.55:
             ops.append(("del", k))
-        elif r < 0.68:
+        elif r < 0.62:
             ops.append(("add", k, rng.randint(10, 99)))
-        elif r < 0.72:
+        elif r < 0.65:
             ops.append(("exp", k))
+        elif r < 0.71:
+            ops.append(("expa", k))
+        elif r < 0.73:
+            ops.append(("expi", k))
         elif r < 0.82:
             ops.append(("flush",))
         elif r < 0.89:
@@ -316,7 +367,11 @@ def gen_random(rng, tier):
             ops.append(("rollback",))
         else:
             ops.append(("len",))
+        if not ab and rng.random() < (0.5 if ops[-1][0] in ("commit", "rollback") else 0.08):
+            ops.append(("begin",))
     ops.append(("len",))
+    if not ab:
+        ops.append(("begin",))
     ops.append(("commit",))
     return n, ops
 
@@ -325,22 +380,39 @@ def small_scope(length):
     import itertools
 
     prefix = [("add", 0, 1), ("commit",), ("get", 0)]
-    alpha = [("get", 0), ("set", 0, 2), ("drop", 0), ("del", 0), ("add", 0, 3), ("exp", 0), ("flush",), ("commit",), ("rollback",), ("len",),
+    alpha = [("get", 0), ("set", 0, 2), ("drop", 0), ("del", 0), ("add", 0, 3), ("exp", 0), ("expa", 0), ("flush",), ("commit",), ("rollback",), ("len",),
              ("add", 1, 4), ("drop", 1), ("set", 1, 5)]
     for seq in itertools.product(alpha, repeat=length):
         yield prefix + list(seq) + [("len",), ("commit",)]
 
 
+NULLW_OPS = [("begin",), ("add", 0, 2), ("commit",), ("begin",), ("get", 0), ("commit",), ("set", 0, 35), ("begin",), ("flush",), ("commit",)]
 PHANTOM_OPS = [("add", 0, 1), ("flush",), ("drop", 0), ("get", 0), ("rollback",), ("len",), ("set", 0, 5), ("flush",)]
+
+
+def small_scope_noautobegin():
+    """autobegin=False: two loaded objects, no transaction; every 4-op sequence over changes
+    (refused or not), drops, begin and flush, then begin + flush + commit"""
+    import itertools
+
+    prefix = [("begin",), ("add", 0, 1), ("add", 1, 2), ("commit",)]
+    alpha = [("set", 0, 5), ("set", 1, 6), ("drop", 0), ("drop", 1), ("begin",), ("flush",), ("len",), ("expa", 1)]
+    for seq in itertools.product(alpha, repeat=4):
+        yield prefix + list(seq) + [("begin",), ("flush",), ("len",), ("commit",)]
 
 
 def gen_cases(ctx, deep=False):
     thorough = ctx.tier == "thorough" or deep
     # witness of Props/C48.gc_unobservable_counterexample: replayed every run (known finding)
     yield {"n": 1, "eoc": 0, "ops": PHANTOM_OPS, "src": "phantom"}
-    for _ in range(3500 if thorough else 450):
-        n, ops = gen_random(ctx.rng, ctx.tier)
-        yield {"n": n, "eoc": ctx.rng.choice([0, 1]), "ops": ops, "src": "random"}
+    yield {"n": 1, "eoc": 1, "ab": 0, "ops": NULLW_OPS, "src": "nullw"}
+    for _ in range(2000 if thorough else 450):
+        ab = ctx.rng.choice([1, 1, 0])
+        n, ops = gen_random(ctx.rng, ctx.tier, ab)
+        yield {"n": n, "eoc": ctx.rng.choice([0, 1] if ab else [0, 0, 0, 1]), "ab": ab, "ops": ops, "src": "random"}
+    for seq in small_scope_noautobegin():
+        if ctx.rng.random() < (0.5 if thorough else 0.15):
+            yield {"n": 2, "eoc": 0, "ab": 0, "ops": seq, "src": "small-noautobegin"}
     for seq in small_scope(2):
         yield {"n": 2, "eoc": ctx.rng.choice([0, 1]), "ops": seq, "src": "small2"}
     for seq in small_scope(3):
@@ -348,7 +420,7 @@ def gen_cases(ctx, deep=False):
             yield {"n": 2, "eoc": ctx.rng.choice([0, 1]), "ops": seq, "src": "small3"}
     if thorough:
         for seq in small_scope(4):
-            if ctx.rng.random() < 0.15:
+            if ctx.rng.random() < 0.06:
                 yield {"n": 2, "eoc": ctx.rng.choice([0, 1]), "ops": seq, "src": "small4"}
 
 
@@ -364,13 +436,13 @@ def check_case(case):
     """returns (impl line, problems, number of operations executed)"""
     outs, problems = run_history(case, keepalive=False)
     nexec = len(outs)
-    if any(k == KEY_PHANTOM for k, _ in problems):
-        # the history stopped where the phantom appeared; compare that prefix only
+    if any(k in KNOWN_KEYS for k, _ in problems):
+        # the history stopped where the known defect appeared; compare that prefix only
         case = dict(case, ops=case["ops"][:nexec])
-    others = [p for p in problems if p[0] != KEY_PHANTOM]
+    others = [p for p in problems if p[0] not in KNOWN_KEYS]
     if not others and nexec == len(case["ops"]):
         touts, tprobs = run_history(case, keepalive=True)
-        problems += [("twin-" + k, d) for k, d in tprobs if k != KEY_PHANTOM]
+        problems += [("twin-" + k, d) for k, d in tprobs if k not in KNOWN_KEYS]
         if len(outs) != len(touts):
             if not tprobs:
                 problems.append(("collection-observable", "histories diverge: %s vs %s" % (outs, touts)))
@@ -423,7 +495,7 @@ def run(ctx, deep=False):
         for key, detail in problems:
             ctx.violation(key, jc, detail)
         cases.append(jc)
-        if len(ctx.violations) >= 25:  # enough evidence; a broken tree can make every history slow
+        if sum(1 for v_ in ctx.violations if v_["key"] not in KNOWN_KEYS) >= 25:  # enough evidence; a broken tree can make every history slow
             impl_out.append(line)
             reqs.append(request(case))
             break
@@ -433,7 +505,7 @@ def run(ctx, deep=False):
             ctx.sample({"case": jc, "impl": line})
     if ctx.driver_ok():
         ctx.correspond("corr/c48:session-with-gc-vs-Model.Weakref.stepGc", cases, impl_out, ctx.driver(reqs))
-        bad = ["weakref run 1 1 1 get:3", "weakref run 1 2 1 -", "weakref run 1 1 1 fly", "weakref run 1 1 7 -"]
+        bad = ["weakref run 1 1 1 1 get:3", "weakref run 1 2 1 1 -", "weakref run 1 1 1 1 fly", "weakref run 1 1 1 7 -", "weakref run 1 1 1 -"]
         ctx.correspond("corr/c48:malformed-rejected", [{"req": b} for b in bad], ["bad-op"] * len(bad), ctx.driver(bad))
 
 
